@@ -34,6 +34,7 @@ RULE = ("C13's graph space (ladders, diamonds, every-edge-kind graphs with "
         "ImplStored nodes, outputs if asked) and upper bound (plus the kinds "
         "materialised by type: CSR products, loopy/call results).  non-trivial"
         " = >= 1 node with >= 2 users; distinct by graph description")
+RULE += '  Round-4 additions: a DistributedRecv with a symbolic shape whose size parameter is reachable only through it.  An edge through a COMPUTED shape (Roll, AxisPermutation: no field) that both relations leave out keeps them converse and is accepted.'
 ASSUMPTIONS = [
     "edges through CSRMatrix objects are contracted (the matrix is not an "
     "array expression); the edge holder->send is not a data-flow edge "
